@@ -47,6 +47,14 @@ type c41Cfg struct {
 	Hold      int       `json:"hold"`      // further submission attempts before the gates open
 	NilCtx    bool      `json:"nil_ctx"`   // ample Stop uses context.Background() instead of a long timeout
 	Faults    c29Faults `json:"faults"`
+	// PauseBefore issues PauseForRestore right before the Stop scenario (the
+	// resume then happens after a Stop call returned, or never).
+	PauseBefore bool `json:"pause_before"`
+	// AfterOps is the maximum number of PRNG lifecycle calls issued by the
+	// controller after every Stop call that returned.
+	AfterOps int `json:"after_ops"`
+	// LifeOps is the plan of the independent lifecycle goroutine.
+	LifeOps []c41LifeOp `json:"life_ops"`
 }
 
 func c41GenCfg(rng *rand.Rand) c41Cfg {
@@ -91,6 +99,9 @@ func c41GenCfg(rng *rand.Rand) c41Cfg {
 	c.Hold = rng.IntN(40)
 	c.NilCtx = rng.IntN(2) == 0
 	c.Faults = c29Faults{FailBefore: rng.IntN(80), Latency: rng.IntN(3)}
+	c.PauseBefore = rng.IntN(100) < 35
+	c.AfterOps = rng.IntN(4)
+	c.LifeOps = c41GenLifeOps(rng, n)
 	return c
 }
 
@@ -124,6 +135,17 @@ type c41Run struct {
 	finished  atomic.Int64
 	uniq      atomic.Int64
 	fence     atomic.Int64 // stamp after the first Stop call returned (0 = none yet)
+
+	life         []c41LifeRec // every lifecycle call other than Stop (guarded by mu)
+	stopInflight atomic.Int32 // Stop calls currently executing
+	nilStop      atomic.Int64 // stamp after the first Stop call that returned nil
+	lateAdmits   atomic.Int32 // submissions admitted after the fence (witnesses are capped)
+	lrng         *rand.Rand   // controller-only PRNG for the after-Stop lifecycle calls
+	endCtx       context.Context
+	endCancel    context.CancelFunc
+	lifeCtx      context.Context // bounds the lifecycle goroutine's blocking WaitIdle calls
+	lifeCancel   context.CancelFunc
+	lifeDone     chan struct{}
 }
 
 func (run *c41Run) toSend(it c29Item) ca.SendBatchItem {
@@ -145,6 +167,20 @@ func (run *c41Run) submit(b *c29Batch) {
 	run.batches = append(run.batches, b)
 	run.mu.Unlock()
 	run.submitted.Add(1)
+	// Decided online: a late admission may never complete, so the verdict must
+	// not depend on the run reaching its final judgement.
+	if f := run.fence.Load(); f != 0 && b.Call > f && fut != nil {
+		if run.lateAdmits.Add(1) <= 2 {
+			run.r.Violation("send-admitted-after-stop-returned", map[string]any{"run": run.idx, "cfg": run.cfg, "stops": run.stopHistory(), "lifecycle": run.lifeHistory(),
+				"producer": b.Prod, "batch": b.N, "submit_call": b.Call, "submit_ret": b.Ret, "fence": f, "items": b.Items})
+		}
+	}
+}
+
+func (run *c41Run) stopHistory() []c41StopRec {
+	run.mu.Lock()
+	defer run.mu.Unlock()
+	return append([]c41StopRec(nil), run.stops...)
 }
 
 func (run *c41Run) genBatch(rng *rand.Rand, prod, n int) *c29Batch {
@@ -169,8 +205,15 @@ func (run *c41Run) await(b *c29Batch) {
 		return
 	}
 	run.waiting.Add(1)
-	res, err := b.fut.Wait(context.Background())
+	res, err := b.fut.Wait(run.endCtx)
 	run.waiting.Add(-1)
+	if err != nil {
+		// the case is over (endCtx cancelled after the final nil Stop): take the
+		// result if the future is complete, otherwise leave it non-terminal.
+		if polled, done := c29FutureDone(b.fut); done {
+			res, err = polled, nil
+		}
+	}
 	if err == nil {
 		b.Res, b.Done = res, true
 		b.DoneAt = run.clock.Tick()
@@ -229,6 +272,7 @@ func (run *c41Run) stop(kind string, ctx context.Context, cancel context.CancelF
 		}
 	}
 	rec := c41StopRec{Kind: kind, Call: run.clock.Tick(), PendingAtCall: pendingAtCall}
+	run.stopInflight.Add(1)
 	err := run.group.Stop(ctx)
 	// --- the moment Stop returned: evaluate before anything else.
 	var pending []*c29Batch
@@ -259,6 +303,10 @@ func (run *c41Run) stop(kind string, ctx context.Context, cancel context.CancelF
 	}
 	rec.Ret = run.clock.Tick()
 	run.fence.CompareAndSwap(0, rec.Ret)
+	if err == nil {
+		run.nilStop.CompareAndSwap(0, rec.Ret)
+	}
+	run.stopInflight.Add(-1)
 	rec.IsNil, rec.Polled = err == nil, polled
 	if err != nil {
 		rec.Err = err.Error()
@@ -302,6 +350,7 @@ func (run *c41Run) stop(kind string, ctx context.Context, cancel context.CancelF
 	u := run.uniq.Add(1)
 	probe.Items = []c29Item{{Kind: c29Normal, Ch: 0, From: "u0", No: fmt.Sprintf("probe%d", u), Payload: c29KeyedPayload(0, "u0", fmt.Sprintf("probe%d", u), 0)}}
 	run.submit(probe)
+	run.afterStopLifecycle(kind)
 	return err == nil
 }
 
@@ -331,6 +380,9 @@ func (run *c41Run) controller() {
 		}
 	}
 	run.waitProgress(int64(cfg.StopAt))
+	if cfg.PauseBefore {
+		run.lifeOp("pause", "controller")
+	}
 	hold := func() { run.waitProgress(run.submitted.Load() + int64(cfg.Hold)) }
 	switch cfg.Scenario {
 	case 0:
@@ -375,12 +427,24 @@ func (run *c41Run) controller() {
 	if !run.stop("after_stopped_expired", ctx, cancel) {
 		run.r.Violation("stop-after-completed-stop-returned-error", map[string]any{"run": run.idx, "cfg": cfg})
 	}
+	// Join the independent lifecycle goroutine (its remaining calls now run
+	// against a stopped group), then try once more to reopen admission and ask
+	// for the final verdict of Stop: nil, with every future terminal.
+	run.lifeCancel() // the group is stopped: a WaitIdle still blocked now only stops waiting
+	<-run.lifeDone
+	run.lifeOp("resume", "controller")
+	run.lifeOp("start", "controller")
+	ctx, cancel = c41Expired()
+	if !run.stop("final_expired", ctx, cancel) {
+		run.r.Violation("stop-after-completed-stop-returned-error", map[string]any{"run": run.idx, "cfg": cfg, "stops": run.stopHistory()})
+	}
+	run.endCancel()
 }
 
 func TestVerifC41(t *testing.T) {
 	r := verifkit.Start(t, "C41", "append")
 	defer r.Finish()
-	r.SetRule("One case = one fresh channelappend.Group over a sequential-log store model with gated appends and a gated PersistAfter sink; config (2-12 producers, 1-5 channels, shards, pools, limits, pipeline depth, fail-before-apply rate, gate instant, Stop instant, scenario: ample / expired+ample / short deadline+ample / expired+cancelled+ample, hold length) and the producers' plans are PRNG functions of (seed, case). Non-trivial = at least one Stop call returned while admitted sends were still unfinished or gated (so the drain had real work), at least one submission was admitted before and one rejected after the fence. Distinct = (scenario, producers, channels, gate mode, log2 buckets of admitted-before / rejected-after / in-flight-at-stop).")
+	r.SetRule("One case = one fresh channelappend.Group over a sequential-log store model with gated appends and a gated PersistAfter sink; config (2-12 producers, 1-5 channels, shards, pools, limits, pipeline depth, fail-before-apply rate, gate instant, Stop instant, scenario: ample / expired+ample / short deadline+ample / expired+cancelled+ample, hold length; plus a PRNG plan of Start / PauseForRestore / ResumeAfterRestore / WaitIdle / ResetAfterRestore / ApplySubscriberMutation calls issued by an independent goroutine at PRNG instants and by the controller right after every Stop return, optionally a PauseForRestore right before the Stop scenario) and the producers' plans are PRNG functions of (seed, case). Non-trivial = at least one Stop call returned while admitted sends were still unfinished or gated (so the drain had real work), at least one submission was admitted before and one rejected after the fence. Distinct = (scenario, producers, channels, gate mode, log2 buckets of admitted-before / rejected-after / in-flight-at-stop).")
 	r.Assume("The fake appender honours its context like the real one (a cancelled append context fails the batch); item contexts are never cancelled by the harness, and the appender only injects failures before applying, so 'record stored <=> success' is exact.")
 
 	nRuns := r.N(600, 8000)
@@ -391,13 +455,16 @@ func TestVerifC41(t *testing.T) {
 		rng := r.Rand(41, uint64(i))
 		cfg := c41GenCfg(rng)
 		r.BeginCase(i, fmt.Sprintf("%+v", cfg))
-		run := &c41Run{r: r, idx: i, cfg: cfg, clock: &verifkit.Clock{}}
+		run := &c41Run{r: r, idx: i, cfg: cfg, clock: &verifkit.Clock{}, lrng: r.Rand(41, uint64(i), 7), lifeDone: make(chan struct{})}
+		run.endCtx, run.endCancel = context.WithCancel(context.Background())
+		run.lifeCtx, run.lifeCancel = context.WithCancel(run.endCtx)
 		ok := verifkit.Watchdog(240*time.Second, func() { run.execute(rng) })
 		if !ok {
 			r.Inconclusive(fmt.Sprintf("case %d: watchdog (240s) expired (a Stop or an admitted future never finished); cfg=%+v", i, cfg))
 			r.Count("runs.watchdog", 1)
 			run.model.gate.Open()
 			run.pc.gate.Open()
+			run.endCancel()
 			if r.NumViolations() > 0 {
 				break // already decided; do not spend the budget on hung cases
 			}
@@ -438,6 +505,7 @@ func (run *c41Run) execute(rng *rand.Rand) {
 			run.producer(p, prng)
 		}(p)
 	}
+	go run.lifecycler(r.Rand(41, uint64(run.idx), 8))
 	run.controller()
 	wg.Wait()
 	run.mu.Lock()
@@ -521,7 +589,7 @@ func (run *c41Run) judge() {
 		}
 		// ---- admitted submission.
 		if after {
-			r.Violation("send-admitted-after-stop-returned", witness(b, -1, nil))
+			r.Count("admitted.after_fence", 1) // violation already recorded online by submit()
 		}
 		if firstStopCall != 0 && b.Ret < firstStopCall {
 			admittedBefore++
@@ -565,8 +633,15 @@ func (run *c41Run) judge() {
 		}
 	}
 	if hung > 0 {
-		r.Inconclusive(fmt.Sprintf("case %d: %d admitted batches without result at the end of the run", run.idx, hung))
+		// endCtx is cancelled only after the final Stop returned; a future that
+		// is still incomplete then will never be completed by anybody.
+		if len(stops) > 0 && stops[len(stops)-1].IsNil {
+			r.Violation("admitted-send-never-terminal-after-final-stop", map[string]any{"run": run.idx, "cfg": cfg, "stops": stops, "lifecycle": run.lifeHistory(), "non_terminal_batches": hung})
+		} else {
+			r.Inconclusive(fmt.Sprintf("case %d: %d admitted batches without result and the final Stop did not return nil", run.idx, hung))
+		}
 	}
+	run.judgeLifecycle(batches, stops)
 	r.Count("runs.finished", 1)
 	r.Count("admitted.before_first_stop_call", admittedBefore)
 	r.Count("rejected.after_fence", rejectedAfter)
